@@ -34,7 +34,13 @@ class C03(CoreProp):
         "frame; not modelled, not generated)",
         "argument / attribute expressions are in the C01 core subset and domain; mixins are defined once, before use",
     ]
-    not_yet_proved = []
+    not_yet_proved = [
+        "C03_program: exec (parse (compile p)) = Spec.Sem.sem_run p for all programs with mixins (closure semantics) as ONE "
+        "theorem: proved are the frame discipline of the executor for every program (only the executing frame changes; a "
+        "call leaves exactly the frames it found; bindings survive calls), what a mixin body sees, where a block runs, the "
+        "lookup rules for repeated / nested / recursive calls, positional parameters; their composition with Pug/Compile.v "
+        "(the __freeze / template lowering) and Spec/Sem.v rests on the correspondence run, judged against BOTH M and S",
+    ]
 
     # ---------------------------------------------------------------- generation
     def mixin_body(self, g, rng, idx, params, ptypes, callable_, depth, genv):
@@ -180,7 +186,7 @@ class C03(CoreProp):
             for n in ns:
                 if not isinstance(n, tuple):
                     continue
-                if n[0] == 'call':
+                if n[0] == 'call' and len(n) == 5:
                     calls.append(n)
                 for x in n[1:]:
                     if isinstance(x, list):
